@@ -49,6 +49,26 @@ CHECKS = {
             "Exploration: generated valid factories over the widest grammar run under an event-bounded step loop (any escaping exception "
             "or >20000 events per instant is a violation, bucketed by exception type and innermost library frame) plus generated invalid "
             "configurations that must be rejected.", "Trusted: SimPy kernel; the outside ledger (instance-level wrappers around reserve_put/reserve_get/put/get/cancel of every store); public state items/ready_items/stats. Valid domain = constructor signatures and parameter docs; known crash signatures are listed in known_findings.json.", "DESIGN.md §4 C20"),
+    "C08": ("F", "property-based testing: generated factories, ledger-derived per-item timing oracle (pull, delay draw, ready, push)",
+            "Exploration: generated factories with work_capacity 1-3, all delay-source kinds, congestion; capacity invariant after every "
+            "kernel event, one delay draw per pulled item in the kernel step of the pull, no push before t_pull+d (exact), and at every "
+            "end of instant every finished item of a blocking node has a worker waiting on a live space request.",
+            "Trusted: SimPy kernel; the outside ledger (instance-level wrappers around reserve_put/reserve_get/put/get/cancel of every store, can_put of every edge); harness-supplied delay/selection sources that log every consultation; public stats. Conveyor out-edges get the 'not before' half only.", "DESIGN.md §4 C08"),
+    "C09": ("F", "property-based testing: generated factories with congestion, per-instant accounting oracle plus recorded can_put probes",
+            "Exploration: generated factories, every node type x blocking flag x policy with full / partly full out-edges; blocking nodes "
+            "never count a discard; non-blocking machines and sources push or discard exactly at the ready instant, the discard counter "
+            "rises by exactly the number of workers whose probes found no room, can_put answers equal ledger-room.",
+            "Trusted: SimPy kernel; the outside ledger (instance-level wrappers around reserve_put/reserve_get/put/get/cancel of every store, can_put of every edge); harness-supplied delay/selection sources that log every consultation; public stats. Non-blocking nodes in front of conveyors are excluded by construction (known finding K1).", "DESIGN.md §4 C09"),
+    "C10": ("F", "property-based testing: generated factories, end-of-instant stranding invariants (bounded liveness)",
+            "Exploration: generated factories incl. finite inputs run to quiescence; at the end of every instant no granted request is left "
+            "unused, a node with a free worker holds live requests on every in-edge its policy names and no such edge has an available "
+            "unreserved item, sinks leave nothing available, no token leaks.",
+            "Trusted: SimPy kernel; the outside ledger (instance-level wrappers around reserve_put/reserve_get/put/get/cancel of every store, can_put of every edge); harness-supplied delay/selection sources that log every consultation; public stats. Liveness only in the bounded form 'not at the end of the instant / at quiescence'.", "DESIGN.md §4 C10"),
+    "C15": ("F", "property-based testing: generated factories with harness-supplied selectors (incl. out-of-range answers), routing-vs-answers-vs-history oracle",
+            "Exploration: generated factories over all policies; the edges actually used (ledger) equal the answers of the selector / the "
+            "cyclic or constant sequence, each selector is consulted once per item, FIRST_AVAILABLE commits to the lowest granted index "
+            "and withdraws the rest, the recorded history equals the routing, out-of-range answers are rejected.",
+            "Trusted: SimPy kernel; the outside ledger (instance-level wrappers around reserve_put/reserve_get/put/get/cancel of every store, can_put of every edge); harness-supplied delay/selection sources that log every consultation; public stats. Source keeps no history; multi-worker ties matched as multisets.", "DESIGN.md §4 C15"),
 }
 
 NOT_YET = "check not built yet in this session (work in progress; see DESIGN.md §4)"
